@@ -87,7 +87,9 @@ def showState (st : St) : String :=
 
 def showLive (st : St) : String :=
   "L" ++ toString st.sessions.length ++ "/" ++ toString (st.holders.filter fun h => isAnyObs h.kind).length ++ "/" ++
-  toString (st.holders.filter fun h => isNode h.kind).length
+  toString (st.holders.filter fun h => isNode h.kind).length ++ "/" ++
+  toString (st.holders.filter fun h => isAsync h.kind).length ++ "/" ++
+  toString (st.holders.filter fun h => isApp h.kind).length
 
 def showOutcome (st : St) : Outcome → String
   | .handled sid => "h" ++ showIdx st.events sid
